@@ -137,19 +137,6 @@ def askWfB (rs : List Ratio) (price : Coin) (flat : Option Coin) : Bool :=
   ratiosWfB rs && decide (0 < price.2) && coinOptNonneg flat &&
   decide (RatiosFit rs price) && decide (AskSumFits rs price flat)
 
-/-- the wildcard rule evaluated on segments, independent of `isReqAttrMatch` -/
-def specMatch (req acc : String) : Option Bool :=
-  let r := req.toList
-  let a := acc.toList
-  if ['*', '.'].isPrefixOf r then
-    let base := splitDots (r.drop 2)
-    let accS := splitDots a
-    let ok (segs : List (List Char)) : Bool := segs.all fun s => !s.isEmpty
-    if ok base && ok accS then
-      some (decide (base.length < accS.length) && accS.drop (accS.length - base.length) == base)
-    else none
-  else some (r != [] && r == a)
-
 structure Parsed where
   requested : Option Market
   attrs : List String
@@ -293,19 +280,18 @@ def check (ws : List String) (impl : String) : String :=
     | some r, some a =>
       let r := decodeStr r
       let a := decodeStr a
-      match specMatch r a with
-      | none => "-"
-      | some b =>
-        if impl = s!"ok {boolStr b}" then "ok"
-        else if ['*', '.'].isPrefixOf r.toList then "fail:reqattr_wildcard" else "fail:reqattr_exact"
+      -- the documented rule on segments (`DocMatch`), independent of `isReqAttrMatch`
+      if !decide (MatchGuard r a) then "-"
+      else if impl = s!"ok {boolStr (decide (DocMatch r a))}" then "ok"
+      else if isWild r then "fail:reqattr_wildcard" else "fail:reqattr_exact"
     | _, _ => "-"
   | "unmatched" :: rest =>
     let reqs := getStrs rest "reqs"
     let accs := getStrs rest "accs"
-    match reqs.mapM (fun r => accs.mapM (specMatch r)) with
-    | none => "-"
-    | some table =>
-      let want := (reqs.zip table).filter (fun p => !p.2.any id) |>.map (·.1)
+    if !decide (PairsOk reqs accs) then "-"
+    else
+      -- exact list: order and multiplicities (theorem `findUnmatched_eq_doc`)
+      let want := docUnmatched reqs accs
       let wantS := "ok " ++ (if want.isEmpty then "-" else "|".intercalate (want.map encodeStr))
       if impl = wantS then "ok" else "fail:unmatched_list"
   | "flatfee" :: rest =>
@@ -334,7 +320,8 @@ def check (ws : List String) (impl : String) : String :=
     let kind := (kv rest "kind").getD ""
     let spec := decide (AttrsOkNorm reqs attrs)
     let raw := decide (AttrsOk reqs attrs)
-    if impl = s!"ok {boolStr spec}" then "ok"
+    if !decide (PairsOk (reqs.map normalizeName) attrs) then "-"
+    else if impl = s!"ok {boolStr spec}" then "ok"
     else if impl = "ok 1" then s!"fail:cancreate_{kind}_allows_missing_attr"
     else if impl = "ok 0" then
       (if !raw then s!"fail:cancreate_{kind}_denies_holder:reqattr_not_normalised"
@@ -346,7 +333,8 @@ def check (ws : List String) (impl : String) : String :=
       match p.hist.configInForce with
       | none => verdictAdmit "createask" impl true [("invalid", m.valid), ("market", false)] false
       | some c =>
-        let g := marketFlatsWf c && (!m.valid || askWfB c.sellerRatios m.price m.sflat)
+        let g := marketFlatsWf c && decide (PairsOk c.reqAsk p.attrs) &&
+          (!m.valid || askWfB c.sellerRatios m.price m.sflat)
         verdictAdmit "createask" impl g
           [("invalid", m.valid), ("closed", c.acceptingOrders),
            ("attr", decide (AttrsOk c.reqAsk p.attrs)),
@@ -360,7 +348,8 @@ def check (ws : List String) (impl : String) : String :=
       match p.hist.configInForce with
       | none => verdictAdmit "createbid" impl true [("invalid", m.valid), ("market", false)] false
       | some c =>
-        let g := marketFlatsWf c && (!m.valid || buyerWfB c.buyerFlat c.buyerRatios m.price)
+        let g := marketFlatsWf c && decide (PairsOk c.reqBid p.attrs) &&
+          (!m.valid || buyerWfB c.buyerFlat c.buyerRatios m.price)
         verdictAdmit "createbid" impl g
           [("invalid", m.valid), ("closed", c.acceptingOrders),
            ("attr", decide (AttrsOk c.reqBid p.attrs)),
@@ -379,7 +368,7 @@ def check (ws : List String) (impl : String) : String :=
           | some rq => p.hist.pre.isEmpty && p.hist.post.isEmpty && decide (AttrsOkNorm rq.reqCommit p.attrs) &&
                        !decide (AttrsOk rq.reqCommit p.attrs)
           | none => false
-        verdictAdmit "commit" impl (marketFlatsWf c)
+        verdictAdmit "commit" impl (marketFlatsWf c && decide (PairsOk c.reqCommit p.attrs))
           [("invalid", m.valid), ("closed", c.acceptingCommitments),
            ("attr", decide (AttrsOk c.reqCommit p.attrs)),
            ("fee", decide (FlatFeeOk c.createCommitFlat m.cfee)),
@@ -391,7 +380,7 @@ def check (ws : List String) (impl : String) : String :=
       match p.hist.configInForce with
       | none => verdictAdmit "fillbids" impl true [("invalid", fillBidsValid cfee sflat), ("market", false)] false
       | some c =>
-        verdictAdmit "fillbids" impl (marketFlatsWf c)
+        verdictAdmit "fillbids" impl (marketFlatsWf c && decide (PairsOk c.reqAsk p.attrs))
           [("invalid", fillBidsValid cfee sflat), ("closed", c.acceptingOrders), ("usersettle", c.userSettle),
            ("attr", decide (AttrsOk c.reqAsk p.attrs)),
            ("fee", decide (FlatFeeOk c.createAskFlat cfee) && decide (FlatFeeOk c.sellerFlat sflat))] false
@@ -403,7 +392,8 @@ def check (ws : List String) (impl : String) : String :=
       | none => verdictAdmit "fillasks" impl true [("invalid", fillAsksValid cfee price fees), ("market", false)] false
       | some c =>
         let v := fillAsksValid cfee price fees
-        let g := marketFlatsWf c && (!v || buyerWfB c.buyerFlat c.buyerRatios price)
+        let g := marketFlatsWf c && decide (PairsOk c.reqBid p.attrs) &&
+          (!v || buyerWfB c.buyerFlat c.buyerRatios price)
         verdictAdmit "fillasks" impl g
           [("invalid", v), ("closed", c.acceptingOrders), ("usersettle", c.userSettle),
            ("attr", decide (AttrsOk c.reqBid p.attrs)),
